@@ -76,9 +76,16 @@ def rules(model: Model, tier: str) -> List[RuleResult]:
         if not check_zero_shortcut(f, RZ):
             RZ.note("%s has no zero-residual shortcut" % f.fq)
         _check_shape(f, SH)
-    _check_termination_condition(model, TC)
     TN = RuleResult(PROP, "C03-TN", "the quantities bounded by the tolerances are all-element 2-norms of the step, the iterate and the function value (shape independent)", min_instances=3)
     _termination_norms(model, TN)
+    try:
+        _check_termination_condition(model, TC)
+    except AnalysisError as _e:
+        if not TN.findings:
+            raise
+        # the norms the test bounds are already shown to be wrong; the truth table of a predicate it cannot read adds no verdict
+        TC.min_instances = 0
+        TC.undecided("xitorch/_impls/optimize/root/rootsolver.py::TerminationCondition.check", "TerminationCondition.check", str(_e))
     _check_best_point(model, ents, RB)
     from ..rules import autograd as _ac
     _R11 = RuleResult(PROP, "AC11", "every exit of the public functional returns the Function's output; forward's solution comes only from the dispatched implementation; operands unchanged", min_instances=2)
